@@ -30,7 +30,7 @@ def files_of(defs, root="vnd"):
 def worker(arg):
     import pydsdl
     block, seed, mod = arg
-    if mod > 1 and hash(block) % mod:
+    if not core.sampled(block, mod):
         return None
     st = tlaval.parse_state_block(block)
     if st["ph"] < 2:
